@@ -80,7 +80,47 @@ class ExprMixin:
         cls = self.prog.resolve_class_name(fr.func.module, e.id)
         if cls is not None:
             return [(st, Sym(("class", cls.qualname), "class", cls=cls))]
+        fn = self.prog.resolve_func_name(fr.func.module, e.id)
+        if fn is not None:
+            return [(st, Sym(("funcref", fn.qualname), "funcref", func=fn, notnone=True))]
+        holder = fr.func.parent or fr.func
+        if e.id in holder.nested:
+            return [(st, Sym(("nested", holder.nested[e.id].qualname), "nested", func=holder.nested[e.id]))]
+        mv = self.module_value(fr.func.module, e.id, st, fr)
+        if mv is not None:
+            return mv
         return [(st, Unknown(why="name " + e.id))]
+
+    _modval_busy = set()
+
+    def module_value(self, mod, name, st, fr):
+        """a module-level name bound once to an expression that is not a foldable constant (a table holding classes or functions, a
+        tuple built from other names): the defining expression is evaluated in place (it is pure: only displays, names, arithmetic)"""
+        nodes = [n for n in mod.tree.body if isinstance(n, (ast.Assign, ast.AnnAssign)) and
+                 any(isinstance(t, ast.Name) and t.id == name for t in (n.targets if isinstance(n, ast.Assign) else [n.target]))]
+        if len(nodes) != 1 or nodes[0].value is None:
+            imp = mod.imports.get(name)
+            if imp and imp[0] in self.prog.modules and imp[0] != mod.name:
+                return self.module_value(self.prog.modules[imp[0]], imp[1], st, fr)
+            return None
+        val = nodes[0].value
+        pure = (ast.Tuple, ast.List, ast.Dict, ast.Name, ast.Constant, ast.BinOp, ast.UnaryOp, ast.Subscript, ast.Load, ast.operator, ast.unaryop, ast.Attribute, ast.Slice)
+        if not all(isinstance(x, pure) for x in ast.walk(val)):
+            return None
+        key = (mod.name, name)
+        if key in self._modval_busy:
+            return None
+        self._modval_busy.add(key)
+        try:
+            from .interp import Frame
+            from .model import Ctx
+            fake = self.prog.module_frame_func(mod)
+            tmp = Frame(fake, None, Ctx(self.prog, fake, None), st, {}, fr.depth, None)
+            res = self.ev(val, st, tmp)
+            st.envs.pop(tmp.fid, None)
+            return res
+        finally:
+            self._modval_busy.discard(key)
 
     def lift(self, c, st):
         """python constant -> abstract value"""
@@ -91,6 +131,8 @@ class ExprMixin:
             if isinstance(c, tuple):
                 return Seq(items, "tuple")
             return st.alloc("list", items=items)
+        if isinstance(c, dict):
+            return Const(c)       # a constant lookup table (module / class level): never written to (R09.5 checks that)
         return Const(c)
 
     def ev_Tuple(self, e, st, fr):
@@ -106,6 +148,29 @@ class ExprMixin:
         return self.ev_List(e, st, fr)
 
     def ev_Dict(self, e, st, fr):
+        if e.keys and all(k is not None for k in e.keys):
+            # a literal table of constants (`{0: 1, 8: 2}.get(x, 250)`): a constant value
+            out = []
+            for s, vals in self.ev_list(list(e.keys) + list(e.values), st, fr):
+                if isinstance(vals, Raised):
+                    out.append((s, vals))
+                    continue
+                n_ = len(e.keys)
+                ks, vs = [norm(v) for v in vals[:n_]], [norm(v) for v in vals[n_:]]
+                if all(isinstance(k, Const) for k in ks) and all(isinstance(v, Const) for v in vs):
+                    try:
+                        out.append((s, Const({k.v: v.v for k, v in zip(ks, vs)})))
+                        continue
+                    except TypeError:
+                        pass
+                if all(isinstance(k, Const) for k in ks):
+                    # constant keys, abstract values (classes, tuples holding classes, ...): a lookup table on the heap
+                    r = s.alloc("dict", items=[], opaque=False)
+                    s.heap[r.ident].fields = {"__table__": list(zip(ks, vals[n_:]))}
+                    out.append((s, r))
+                    continue
+                out.append((s, s.alloc("dict", items=[], opaque=True)))
+            return out
         return [(st, st.alloc("dict", items=[], opaque=bool(e.keys)))]
 
     def ev_JoinedStr(self, e, st, fr):
@@ -253,7 +318,21 @@ class ExprMixin:
                 if isinstance(t, Raised):
                     out.append((s, t))
                 elif t is None:
-                    out.append((s, self._last_unknown_not))
+                    lun = self._last_unknown_not
+                    if lun.cmp is None and isinstance(e.operand, (ast.Name, ast.Attribute)):
+                        # `not x` for a number of unknown truth: the boolean stands for x == 0 (decided when branched on)
+                        cur = self.peek(e.operand, s, fr)
+                        cv = norm(cur) if cur is not None and hasattr(cur, "key") else None
+                        if isinstance(cv, (BitV, Lin)) or (isinstance(cv, Sym) and cv.ty == "int"):
+                            key = id(e)
+                            synth = self._tuple_cmp_cache.get(("not0", key))
+                            if synth is None:
+                                synth = ast.Compare(left=e.operand, ops=[ast.NotEq()], comparators=[ast.Constant(0)])
+                                ast.copy_location(synth, e)
+                                ast.fix_missing_locations(synth)
+                                self._tuple_cmp_cache[("not0", key)] = synth
+                            lun = Unknown(deps_of(cv), ty="bool", cmp=(synth, (cv, Const(0)), True, fr.fid))
+                    out.append((s, lun))
                 else:
                     out.append((s, Const(not t)))
             return out
@@ -495,6 +574,8 @@ class ExprMixin:
             return Bytes([(("const", bytes(v.v)), Const(len(v.v)))], "bytes")
         if isinstance(v, Ref) and v.kind == "bytearray":
             cell = st.heap[v.ident]
+            if (cell.fields or {}).get("__packed__") is not None:
+                return Bytes(list(cell.fields["__packed__"].parts), "bytearray", origin=("heap", v.ident))
             if cell.opaque:
                 ln = cell.fields.get("len") if cell.fields else None
                 return Bytes([(("heap", v.label or v.ident), ln if ln is not None else Unknown(ty="int"))], "bytearray", origin=("heap", v.ident))
@@ -509,7 +590,16 @@ class ExprMixin:
             x, y = self.as_bytes(a, st), self.as_bytes(b, st)
             if x is not None and y is not None:
                 kind = x.kind if x.kind != "byteslike" else "byteslike"
-                return Bytes(x.parts + y.parts, kind)
+                parts = list(x.parts) + list(y.parts)
+                # adjacent literal parts are one literal (b"\x71.." + b"\0" is the 5-byte constant)
+                merged = []
+                for tag, ln in parts:
+                    if merged and tag[0] == "const" and merged[-1][0][0] == "const":
+                        cb = merged[-1][0][1] + tag[1]
+                        merged[-1] = (("const", cb), Const(len(cb)))
+                    else:
+                        merged.append((tag, ln))
+                return Bytes(merged, kind)
             return None
         if isinstance(op, ast.Mult):
             x, n = self.as_bytes(a, st), b
@@ -558,7 +648,8 @@ class ExprMixin:
             elif t is None:
                 lu = self._last_unknown
                 lc = self._last_cmp
-                if len(e.ops) == 1 and lc is not None and lc[0] is e:
+                # only comparisons of immutable abstract values are deferred: a heap object may change between evaluation and branch
+                if len(e.ops) == 1 and lc is not None and lc[0] is e and not any(isinstance(x, Ref) for x in lc[1]):
                     lu = Unknown(lu.deps, ty="bool", cmp=(e, lc[1], False, fr.fid))
                 out.append((s, lu))
             else:
@@ -597,6 +688,14 @@ class ExprMixin:
                 items = b.items
             elif isinstance(b, Ref) and b.kind in ("list", "set") and not st.heap[b.ident].opaque:
                 items = st.heap[b.ident].items
+            elif isinstance(b, Const) and isinstance(b.v, (dict, tuple, list, frozenset, set)):
+                if isinstance(a, Const):
+                    try:
+                        r = a.v in b.v
+                        return r if t is ast.In else not r
+                    except TypeError:
+                        return None
+                items = [Const(k) for k in b.v]
             if items is not None:
                 res = [self.compare(ast.Eq(), a, it, st) for it in items]
                 if any(x is True for x in res):
@@ -715,13 +814,29 @@ class ExprMixin:
                     c_ = None
                     if isinstance(ov, Unknown) and ov.cmp is not None:
                         c_ = (ov.cmp[0], ov.cmp[1], not ov.cmp[2], ov.cmp[3])
-                    elif lc is not None and lc[0] is test.operand and len(test.operand.ops) == 1:
+                    elif lc is not None and lc[0] is test.operand and len(test.operand.ops) == 1 and not any(isinstance(x, Ref) for x in lc[1]):
                         c_ = (lc[0], lc[1], True, fr.fid)
                     self._last_unknown_not = Unknown(deps_of(ov), ty="bool", cmp=c_)
                     self._last_unknown = self._last_unknown_not
                     self._last_cmp = None
                 res.append((s, t if isinstance(t, Raised) or t is None else (not t)))
             return res
+        if isinstance(test, ast.Compare) and len(test.ops) == 1 and isinstance(test.ops[0], (ast.Eq, ast.NotEq)) and isinstance(test.left, ast.Tuple) \
+                and isinstance(test.comparators[0], ast.Tuple) and len(test.left.elts) == len(test.comparators[0].elts) and test.left.elts:
+            # (a, b, c) == (x, y, z): element-wise, left to right (all operands are evaluated by Python before comparing; the operands of
+            # such comparisons in the package are side-effect free attribute reads)
+            key = id(test)
+            syn = self._tuple_cmp_cache.get(key)
+            if syn is None:
+                eq = isinstance(test.ops[0], ast.Eq)
+                parts = [ast.Compare(left=l_, ops=[ast.Eq() if eq else ast.NotEq()], comparators=[r_]) for l_, r_ in zip(test.left.elts, test.comparators[0].elts)]
+                syn = ast.BoolOp(op=ast.And() if eq else ast.Or(), values=parts) if len(parts) > 1 else parts[0]
+                ast.copy_location(syn, test)
+                for p_ in parts:
+                    ast.copy_location(p_, test)
+                ast.fix_missing_locations(syn)
+                self._tuple_cmp_cache[key] = syn
+            return self.branch(syn, st, fr, record)
         if isinstance(test, ast.Compare) and len(test.ops) > 1:
             # a op1 b op2 c  ==  (a op1 b) and (b op2 c); operands evaluated once
             outs = []
@@ -770,6 +885,7 @@ class ExprMixin:
     _last_unknown = Unknown(ty="bool")
     _last_unknown_not = Unknown(ty="bool")
     _last_cmp = None
+    _tuple_cmp_cache = {}
 
     def compare_now(self, op, a, b, st, fr):
         """compare() plus what the truth facts (non-zero / zero sets, ranges) say about `x != 0` / `x == 0`"""
